@@ -708,10 +708,15 @@ def run(ctx: common.Ctx):
              ('MoistPrimitiveEquations', True, True), ('MoistPrimitiveEquationsWithCloudMoisture', True, True)]
   reps = ctx.n(2, 10)
   for rep in range(reps):
-    for ci, (cls, moist, with_time) in enumerate(classes):
+    todo = list(enumerate(classes))
+    if ctx.quick and rep > 0:
+      todo = [todo[i] for i in sorted(ctx.rng.choice(len(todo), size=2, replace=False))]
+    for ci, (cls, moist, with_time) in todo:
       t0 = time.time()
       _pe_class(ctx, env, cls, moist, with_time, stats, rep, ci)
       tm[cls] = tm.get(cls, 0.0) + time.time() - t0
+    if ctx.quick and rep > 0:
+      continue
     t0 = time.time()
     _held_suarez(ctx, env, stats)
     tm['HeldSuarez'] = tm.get('HeldSuarez', 0.0) + time.time() - t0
